@@ -338,6 +338,8 @@ class RegionLifter:
                     rows = base[r]
                     if isinstance(c, slice):
                         return Mat(Vec(row[c]) for row in rows)
+                    if isinstance(c, (Vec, list)):
+                        return Mat(Vec(row[self.as_int(k)] for k in c) for row in rows)
                     return Vec(row[self.as_int(c)] for row in rows)
                 if r is None:
                     raise Unsupported("newaxis")
@@ -481,6 +483,12 @@ class RegionLifter:
         return apower(x, const(e))
 
     def dot(self, a, b):
+        if isinstance(a, Mat) and isinstance(b, Vec):
+            return Vec(self.dot(Vec(r), b) for r in a)
+        if isinstance(a, Vec) and isinstance(b, Mat):
+            return Vec(self.dot(a, Vec(c)) for c in zip(*b))
+        if isinstance(a, Mat) and isinstance(b, Mat):
+            return Mat(Vec(self.dot(Vec(r), Vec(c)) for c in zip(*b)) for r in a)
         if isinstance(a, Vec) and isinstance(b, Vec):
             if len(a) != len(b):
                 raise Unsupported("dot length mismatch")
@@ -740,6 +748,12 @@ class RegionLifter:
             return best
         if name in ("norm", "np.linalg.norm", "linalg.norm"):
             o = kw.get("ord", args[1] if len(args) > 1 else None)
+            if isinstance(o, RF) and o.equals(INF):
+                xs = [self.absval(x) for x in args[0]]
+                cur = xs[0]
+                for x in xs[1:]:
+                    cur = self.maxmin(True, cur, x)
+                return cur
             if o is not None and self.as_int(o) != 2:
                 raise Unsupported("norm order")
             if "axis" in kw:
